@@ -52,6 +52,10 @@ CHECKS['C19'] = dict(
     text='A scripted producer answers or drops each Interest of the real segment_fetcher per a generated script; yielded sequence, final outcome and the number of Interests per segment are compared with a small model. Thorough: exhaustive over sizes <= 4 x discovery answer x single lossy request x retry limit x marker placement.',
     design_ref='DESIGN.md 3/C19', technique='runtime monitor: scripted peer with loss/fault injection on a virtual-time loop, outcome compared with an executable model',
     note='objects without any final-block marker are outside the statement.', level='fault_enumeration')
+CHECKS['C18'] = dict(
+    text='A real SvsInst on a real appv2 NDNApp over a recording face runs generated histories (vectors newer/older/incomparable/unknown nodes/too much for self/malformed, publications, clock advances to just before/after the suppression and periodic deadlines) on a virtual clock; a reference state machine computes the expected merge, callback and emission decisions (due instants read from the public next_sync_timing); emitted sync Interests are decoded from the face output and must carry the full vector.',
+    design_ref='DESIGN.md 3/C18', technique='runtime monitor against an executable reference state machine on a virtual-time loop (timer schedule control)',
+    note='suppression entry is read from the instance; vectors with a malformed entry may be merged without it or ignored; jitter source seeded.')
 _ALL = ['C%02d' % i for i in range(1, 21)]
 for _p in _ALL:
     if _p not in CHECKS:
